@@ -5,9 +5,11 @@ _WORLD_MODULES = {
     "mux": "worlds.mux",
     "memmap": "worlds.memmap",
     "arbiter": "worlds.arbiter",
+    "wbdec": "worlds.wbdec",
 }
 PROPERTY_WORLD = {
     "C04": "mux", "C05": "mux",
+    "C07": "wbdec",
     "C08": "arbiter", "C09": "arbiter",
     "C02": "memmap", "C03": "memmap", "C18": "memmap",
 }
